@@ -1012,6 +1012,75 @@ fn corr_fit_end_to_end(out: &mut Out, rng: &mut Rng) {
 }
 
 // ------------------------------------------------------------------------------------------
+// ------------------------------------------------------------------------------------------
+// api_trait_twin: fit / predict through `smartcore::api::{SupervisedEstimator, Predictor}` give exactly
+// what the inherent methods give (training matrix and fresh rows, model fitted either way)
+// ------------------------------------------------------------------------------------------
+fn twin_fit(x: &[Vec<f64>], y: &[f64], alpha: f64, queries: &[Vec<f64>]) -> Option<twin::Diff> {
+    type LR = LogisticRegression<f64, DenseMatrix<f64>>;
+    if x.is_empty() || x[0].is_empty() || queries.is_empty() {
+        return None;
+    }
+    let xm = dense(x);
+    let qm = dense(queries);
+    let yv = y.to_vec();
+    let p = LogisticRegressionParameters::default().with_alpha(alpha);
+    let probes = [("the training matrix", &xm), ("the fresh rows", &qm)];
+    twin::check(
+        "SupervisedEstimator",
+        "Predictor",
+        "predict",
+        || twin::fit_sup::<LR, _, _, _>(&xm, &yv, p.clone()),
+        || LR::fit(&xm, &yv, p.clone()),
+        |m: &LR, z: &DenseMatrix<f64>| twin::predict(m, z),
+        |m: &LR, z: &DenseMatrix<f64>| m.predict(z),
+        &probes,
+        |m: &LR| serde_json::to_string(m).unwrap_or_default(),
+        true,
+    )
+}
+fn check_twin(out: &mut Out, x: &[Vec<f64>], y: &[f64], alpha: f64, queries: &[Vec<f64>], family: &str) {
+    let mut kd: Vec<f64> = x.iter().flatten().cloned().collect();
+    kd.extend(y.iter());
+    kd.extend(queries.iter().flatten());
+    kd.extend([alpha, -7.0]);
+    out.eval(hash_f64s(&kd), x.len() > classes_of(y).len());
+    out.count(&format!("twin:{}:{}", family, if alpha == 0.0 { "alpha=0" } else { "alpha>0" }));
+    if twin_fit(x, y, alpha, queries).is_none() {
+        return;
+    }
+    // shrink: fewer fresh rows, fewer training rows
+    let (mut cx, mut cy, mut cq) = (x.to_vec(), y.to_vec(), queries.to_vec());
+    let mut progress = true;
+    let mut budget = 200;
+    while progress && budget > 0 {
+        progress = false;
+        let mut i = 0;
+        while cq.len() > 1 && i < cq.len() && budget > 0 {
+            let mut t = cq.clone();
+            t.remove(i);
+            budget -= 1;
+            if twin_fit(&cx, &cy, alpha, &t).is_some() { cq = t; progress = true; } else { i += 1; }
+        }
+        let mut i = 0;
+        while cx.len() > 2 && i < cx.len() && budget > 0 {
+            let (mut tx, mut ty) = (cx.clone(), cy.clone());
+            tx.remove(i);
+            ty.remove(i);
+            budget -= 1;
+            if twin_fit(&tx, &ty, alpha, &cq).is_some() { cx = tx; cy = ty; progress = true; } else { i += 1; }
+        }
+    }
+    if let Some(d) = twin_fit(&cx, &cy, alpha, &cq) {
+        out.count(&format!("twin:failing:{}", "LogisticRegression"));
+        out.fail(
+            twin::ORACLE,
+            &format!("LogisticRegression: {}: {}", d.call, d.what),
+            json!({"entry": "twin", "oracle": twin::ORACLE, "estimator": "LogisticRegression", "alpha": alpha, "x": cx, "y": cy, "queries": cq, "differing_call": d.call}),
+        );
+    }
+}
+
 fn replay(path: &str) -> i32 {
     let v = read_replay(path);
     let inp = if v.get("input").is_some() { v["input"].clone() } else { v.clone() };
@@ -1028,6 +1097,15 @@ fn replay(path: &str) -> i32 {
                 return 1;
             }
             check_fit(&mut out, &mut st, &x, &y, alpha, "replay");
+        }
+        "twin" => {
+            let x = rows_from_json(&inp["x"]);
+            let y = f64s_from_json(&inp["y"]);
+            let q = rows_from_json(&inp["queries"]);
+            if let Some(d) = twin_fit(&x, &y, inp["alpha"].as_f64().unwrap_or(0.0), &q) {
+                println!("  {}: {}: {}", twin::ORACLE, d.call, d.what);
+                out.fail(twin::ORACLE, &d.what, json!({}));
+            }
         }
         "quad" => {
             let a = rows_from_json(&inp["a"]);
@@ -1226,7 +1304,7 @@ fn main() {
     let mut rng = Rng::new(a.seed);
     let mut out = Out::new(
         "C09",
-        "search case = (training set, alpha) | (SPD quadratic, start, interpolation order) | (objective, point) | (1-D polynomial line search); non-trivial: fit with more rows than classes and starting gradient >= 0.05, quadratic of dimension >= 2 not started at its optimum, objective point with alpha > 0, line search along a descent direction; distinct by hash of all numbers of the input",
+        "search case = (training set, alpha) | (SPD quadratic, start, interpolation order) | (objective, point) | (1-D polynomial line search); non-trivial: fit with more rows than classes and starting gradient >= 0.05, quadratic of dimension >= 2 not started at its optimum, objective point with alpha > 0, line search along a descent direction; distinct by hash of all numbers of the input. api-trait twin case = a training set fitted and queried through smartcore::api::{SupervisedEstimator, Predictor} and through the inherent methods; all results must coincide bit for bit",
     );
     let mut st = LrStats { zero_objective_exits: 0, worst_step_increase: 0.0, worst_pos_df0: 0.0, worst_cont: 0.0, max_legs: 0, worst: [0.0; 5], exits: [0; 5] };
     let mut qs = QuadStats { worst_pos_df0: 0.0, worst_k: 0.0, worst_ratio: 0.0, worst_iters: 0 };
@@ -1350,6 +1428,17 @@ fn main() {
                 out.sample(json!({"x": d.x, "y": d.y, "alpha": alpha, "coefficients": f.coef, "intercept": f.icpt, "exit": f.run.exit, "iterations": f.run.iterations}));
             }
         }
+    }
+    // ---- api-trait twins (last: the streams of the sections above are unchanged) ----
+    for i in 0..(if a.thorough { 400 } else { 50 }) {
+        let k = *rng.pick(&[2usize, 2, 3, 4]);
+        let n = rng.usize_in(k + 2, 40);
+        let p = rng.usize_in(1, 5);
+        let sep = *rng.pick(&[0.0, 1.0, 2.0, 5.0]);
+        let d = gen_data(&mut rng, n, p, k, sep, 10.0);
+        let alpha = if i % 4 == 0 { 0.0 } else { log_uniform(&mut rng, 1e-2, 10.0) };
+        let q: Vec<Vec<f64>> = (0..4).map(|_| { let r = rng.pick(&d.x).clone(); r.iter().map(|v| v * rng.uniform(0.5, 1.5) + rng.normal()).collect() }).collect();
+        check_twin(&mut out, &d.x, &d.y, alpha, &q, &d.family);
     }
     out.set(
         "stationarity_by_exit",
